@@ -330,4 +330,149 @@ Section Soundness.
     eapply cle_sound; eauto.
   Qed.
 
+
+  (** *** serialised forms are accepted again *)
+  Lemma nf_accepts : forall t j, nf pred t j = true -> accepts pred t j = true.
+  Proof.
+    induction t using ty_ind'; intros j HN; simpl in *; auto.
+    - destruct k, j; simpl in HN; try discriminate; destruct s; simpl; auto;
+        apply andb_true_iff in HN; destruct HN as [HN _]; auto.
+    - apply existsb_exists in HN. destruct HN as [v [Hin Hv]].
+      apply existsb_exists. exists v. split; auto.
+      destruct j, v; simpl in *; try discriminate; auto.
+      + destruct b, b0; simpl in *; auto; discriminate.
+    - apply existsb_exists in HN. destruct HN as [t [Hin Ht]].
+      apply existsb_exists. exists t. split; auto.
+      rewrite Forall_forall in H. auto.
+    - destruct j; try discriminate. rewrite forallb_forall in *. auto.
+    - destruct j; try discriminate. rewrite forallb_forall in *. auto.
+    - destruct j; try discriminate. simpl.
+      apply andb_true_iff in HN. destruct HN as [HF HX].
+      apply andb_true_iff. split.
+      + rewrite forallb_forall in *. rewrite Forall_forall in H.
+        intros f Hf. specialize (HF f Hf). specialize (H f Hf).
+        destruct (lookup (fst f) kvs); auto.
+        apply andb_true_iff in HF. destruct HF as [_ HF]. auto.
+      + destruct e; simpl in *; auto.
+  Qed.
+
+  (** the property in its own terms: what the child serialises, the parent accepts *)
+  Corollary subtype_sound_dump : forall a b,
+    wf a -> wf b -> safe_pair a b = true -> subtype pred a b = true ->
+    forall d, nf pred a d = true -> accepts pred b d = true.
+  Proof. intros a b Wa Wb HS HT d HN. apply (subtype_sound a b); auto. now apply nf_accepts. Qed.
+
+  (** contrapositive: a value the child type accepts and the parent type rejects makes
+      the check refuse *)
+  Corollary subtype_refuses : forall a b,
+    wf a -> wf b -> safe_pair a b = true ->
+    (exists j, accepts pred a j = true /\ accepts pred b j = false) ->
+    subtype pred a b = false.
+  Proof.
+    intros a b Wa Wb HS [j [Ha Hb]].
+    destruct (subtype pred a b) eqn:E; auto.
+    rewrite (subtype_sound a b Wa Wb HS E j Ha) in Hb. discriminate.
+  Qed.
+
+  (** *** the class-level check *)
+  Definition overrides_ok (p : schema) (c : childdef) : Prop :=
+    forall n h hp, In (n, h) (c_own c) -> In (n, hp) (s_hints p) ->
+      wf (snd h) /\ wf (snd hp) /\ safe_pair (snd h) (snd hp) = true.
+
+  Lemma has_key_fields_of : forall k hs, has_key k (fields_of hs) = has_key k hs.
+  Proof.
+    unfold has_key. induction hs as [|[n [a t]] hs IH]; simpl; auto.
+    destruct (String.eqb k n); auto.
+  Qed.
+
+  Lemma child_field_in : forall p c n hp,
+    In (n, hp) (s_hints p) -> mem_str n (c_newconsts c) = false ->
+    In (n, snd (match lookup n (c_own c) with Some h => h | None => hp end))
+       (fields_of (s_hints (child_schema p c))).
+  Proof.
+    intros p c n hp Hin Hnc. unfold child_schema, fields_of, merge_hints. simpl.
+    rewrite map_app. apply in_or_app. left.
+    rewrite map_map. rewrite map_app. apply in_or_app. left.
+    rewrite map_map. apply in_map_iff. exists (n, hp). split; auto. simpl.
+    destruct (lookup n (c_own c)); simpl; now rewrite Hnc.
+  Qed.
+
+  Lemma child_names : forall p c k,
+    has_key k (fields_of (s_hints (child_schema p c))) = true ->
+    has_key k (s_hints p) = true
+    \/ (exists h, In (k, h) (c_own c)) \/ In k (c_newconsts c).
+  Proof.
+    intros p c k H. rewrite has_key_fields_of in H. apply has_key_In in H.
+    unfold child_schema, merge_hints in H. simpl in H.
+    rewrite map_app, !map_map in H. apply in_app_or in H. destruct H as [H|H].
+    - apply in_map_iff in H. destruct H as [x [E Hx]].
+      assert (fst x = k) by (destruct (mem_str (fst x) (c_newconsts c)); simpl in E; auto).
+      subst k. apply in_app_or in Hx. destruct Hx as [Hx|Hx].
+      + apply in_map_iff in Hx. destruct Hx as [b [Eb Hb]]. left.
+        apply has_key_In. replace (fst x) with (fst b).
+        * now apply in_map.
+        * subst x. now destruct (lookup (fst b) (c_own c)).
+      + right. left. apply filter_In in Hx. destruct Hx as [Hx _].
+        exists (snd x). now destruct x.
+    - right. right. simpl in H. apply in_map_iff in H. destruct H as [x [E Hx]].
+      subst. apply filter_In in Hx. tauto.
+  Qed.
+
+  Theorem checked_child_sound : forall p c,
+    check_child pred p c = true ->
+    NoDup (map fst (s_hints p)) ->
+    (forall n, In n (c_newconsts c) -> has_key n (s_hints p) = false) ->
+    overrides_ok p c ->
+    forall j, accepts pred (obj_of (child_schema p c)) j = true ->
+              accepts_except pred (c_declared c) (obj_of p) j = true.
+  Proof.
+    intros p c HC ND HNC OK j HA.
+    unfold check_child in HC. apply andb_true_iff in HC. destruct HC as [HC HO].
+    apply andb_true_iff in HC. destruct HC as [HN HCo].
+    unfold obj_of in *. unfold accepts_except. simpl in HA.
+    destruct (as_obj j) as [kvs|]; try discriminate.
+    apply andb_true_iff in HA. destruct HA as [HF HX].
+    unfold obj_ok. apply andb_true_iff. split.
+    - (* every field of the parent *)
+      apply forallb_forall. intros f Hf.
+      unfold fields_of in Hf. apply in_map_iff in Hf. destruct Hf as [[n hp] [Ef Hin]].
+      subst f. simpl.
+      destruct (mem_str n (c_declared c)) eqn:D; auto. simpl.
+      assert (Hnc : mem_str n (c_newconsts c) = false).
+      { destruct (mem_str n (c_newconsts c)) eqn:E; auto.
+        apply mem_str_In in E. apply HNC in E.
+        assert (has_key n (s_hints p) = true).
+        { apply has_key_In. change n with (fst (n, hp)). now apply in_map. }
+        congruence. }
+      pose proof (child_field_in p c n hp Hin Hnc) as Hc.
+      rewrite forallb_forall in HF. specialize (HF _ Hc). simpl in HF.
+      destruct (lookup n (c_own c)) as [h|] eqn:EL; auto.
+      (* an override *)
+      apply lookup_In in EL.
+      unfold check_overrides in HO. apply andb_true_iff in HO. destruct HO as [_ HO].
+      rewrite forallb_forall in HO.
+      assert (Hact : In (n, h) (actual_overrides p c)).
+      { unfold actual_overrides. apply filter_In. split; auto. simpl.
+        rewrite Hnc. simpl. rewrite andb_true_r.
+        apply has_key_In. change n with (fst (n, hp)). now apply in_map. }
+      specialize (HO _ Hact). simpl in HO. rewrite D in HO. simpl in HO.
+      rewrite (lookup_NoDup n hp (s_hints p) ND Hin) in HO.
+      unfold subtype_hint in HO.
+      destruct (Bool.eqb (fst h) (fst hp)); try discriminate.
+      destruct (OK n h hp EL Hin) as [W1 [W2 SP]].
+      destruct (lookup n kvs); eapply subtype_sound; eauto.
+    - (* extra fields *)
+      destruct (extra_forbids (s_extra p)) eqn:EF; auto. simpl.
+      unfold check_new in HN. apply andb_true_iff in HN. destruct HN as [_ HN].
+      rewrite EF in HN. simpl in HN. apply andb_true_iff in HN. destruct HN as [CF HOwn].
+      unfold check_consts in HCo. rewrite EF in HCo. simpl in HCo.
+      simpl in HX. rewrite CF in HX. simpl in HX.
+      unfold keys_known in *. rewrite forallb_forall in *.
+      intros kv Hkv. specialize (HX kv Hkv).
+      rewrite has_key_fields_of.
+      destruct (child_names p c (fst kv) HX) as [H|[[h H]|H]]; auto.
+      + apply (HOwn (fst kv, h) H).
+      + apply (HCo _ H).
+  Qed.
+
 End Soundness.
